@@ -1,4 +1,5 @@
 import RpcVerif.Lemmas.PoolInv
+import RpcVerif.Generated.ConnFacts
 /-
   C14 — Transport sends to the requested address and recovers from dead connections.
 -/
@@ -30,6 +31,15 @@ theorem C14_unreachable (mc mi : Int) (ka ito : Nat) (tr : List Ev) (a clock : N
     s.up a = false → (getConn s a clock).1.dials = s.dials ∧ (pooled s a = [] → (getConn s a clock).2 = none) := by
   intro s hup
   exact ⟨getConn_down s a clock hup, fun hn => getConn_none_pooled s (inv_run mc mi ka ito tr) a clock hup hn⟩
+
+/-- How the Transport learns that a pooled connection is dead (facts read from conn.go and
+    transport.go on every run): the connection's reader sets `shutdown` in the critical section of
+    its final sweep whatever ended the read loop — a clean EOF or any other read error —, a
+    shut-down connection refuses the next call with ErrShutdown inside the critical section that
+    would register it, and ErrShutdown (and nothing else) makes `checkPersistConnErr` mark the
+    pooled connection dead. P's `fail` event is that report. -/
+theorem C14_dead_connections_are_recognised :
+    (Gen.connSetsShutdownInsideSweep && Gen.connSendRefusesUnderLock && Gen.persistErrOnlyShutdown) = true := by decide
 
 /-! Non-vacuity: the history that failed for ever on the unrepaired tree — dead connection parked
     in the idle queue by housekeeping, then requested on the path without an active list — now
